@@ -92,7 +92,7 @@ IcmpOpen(s, t) ==
     /\ UNCHANGED << half, sproto, ireq, gSessions, gTcp, cIn, cOut >>
     /\ Log(Op("IcmpOpen", s, t, 0))
 
-\* one echo request of n octets (ICMP header + data) goes out; every EchoEvery-th request of the
+\* one echo request of n octets (ICMP header + data; the same count for ICMPv4 and ICMPv6 - the harness alternates) goes out; every EchoEvery-th request of the
 \* tunnel is answered by a reply of n octets: the request counts as uploaded (inbound_traffic_bytes),
 \* the reply as downloaded (outbound_traffic_bytes) - the two directions are told apart
 IcmpEcho(t, n) ==
